@@ -125,7 +125,7 @@ impl MemoryStruct {
                         return Err(cameleon_impl::memory::MemoryError::AddressNotReadable);
                     }
 
-                    Ok(&self.raw[range])
+                    self.raw.get(range).ok_or(cameleon_impl::memory::MemoryError::InvalidAddress)
                 }
 
                 fn read<T: cameleon_impl::memory::Register>(&self) -> cameleon_impl::memory::MemoryResult<T::Ty> {
@@ -139,7 +139,8 @@ impl MemoryStruct {
 
             impl cameleon_impl::memory::prelude::MemoryWrite for #ident {
                 fn write_raw(&mut self, addr: usize, buf: &[u8]) -> cameleon_impl::memory::MemoryResult<()> {
-                    let (start, end) = (addr, addr + buf.len());
+                    let end = addr.checked_add(buf.len()).ok_or(cameleon_impl::memory::MemoryError::InvalidAddress)?;
+                    let start = addr;
                     let range = start..end;
                     self.protection.verify_address_with_range(range.clone())?;
                     let access_right = self.protection.access_right_with_range(range.clone());
@@ -147,7 +148,7 @@ impl MemoryStruct {
                         return Err(cameleon_impl::memory::MemoryError::AddressNotWritable);
                     }
 
-                    self.raw[range].copy_from_slice(buf);
+                    self.raw.get_mut(range).ok_or(cameleon_impl::memory::MemoryError::InvalidAddress)?.copy_from_slice(buf);
                     self.notify_all(start..end);
 
                     Ok(())
